@@ -46,6 +46,8 @@ def cases(tier, seed):
             yield {"kind": "kiss", "mean": mean, "depth": depth, "dims": dims, "late_eval": depth > 1, "seed": rnd.randrange(10**6)}
         for mb, lik, depth, fpv in itertools.product([[], [2]], ["gauss", "fixed", "fixed+learn"], [2, 3], [False, True]):
             yield {"kind": "single", "mbatch": mb, "pattern": "m", "lik": lik, "depth": depth, "fast_pred_var": fpv, "detach": True, "n": 4, "m": 2, "late_eval": True, "seed": rnd.randrange(10**6)}
+        for lik, fpv in itertools.product(["gauss", "fixed", "fixed+learn"], [False, True]):
+            yield {"kind": "as_function", "lik": lik, "fast_pred_var": fpv, "seed": rnd.randrange(10**6)}
         for pol, fpv in itertools.product(["mask", "fill"], [False, True]):
             yield {"kind": "nan_source", "policy": pol, "fast_pred_var": fpv, "n": 6, "m": 2, "seed": rnd.randrange(10**6), "hostile": True}
 
@@ -162,6 +164,8 @@ def run_case(case, ctx):
         return _modellist(case, ctx, g)
     if case["kind"] == "nan_source":
         return _nan_source(case, ctx, g)
+    if case["kind"] == "as_function":
+        return _as_function(case, ctx, g)
     if case["kind"] == "kiss":
         # kernel-specific strategy: the KISS-GP (interpolated) fantasy update against conditioning the same approximate
         # kernel from scratch - the cell is shared with C09 (structure-exploiting strategies)
@@ -289,6 +293,68 @@ def _single(case, ctx, g):
             ref_m, ref_c = _check_against_dense(ctx, fm, model, case["lik"], lik, Xa, ya, na, xs, cls + f":L{level}:late", case["fast_pred_var"])
             nontriv = nontriv or float((ref_m - src0.mean).abs().max()) > 1e-3
     ctx.cell({k: v for k, v in case.items() if k != "seed"}, nontrivial=nontriv)
+
+
+def _as_function(case, ctx, g):
+    """the fantasy model equals conditioning from scratch AS A FUNCTION of the fantasy inputs (gradients of its predictions
+    with respect to X_f, caches not detached), and a source fantasised twice at the same input TENSOR object (refilled in
+    place, other targets / noise) gives the second data set's model"""
+    import copy
+
+    import torch
+
+    import gpytorch
+    from gpytorch import settings as S
+    from vf import util
+
+    c = dict(case, mbatch=[], n=5)
+    model, lik, X, y, fixed = _make(c, g)
+    model.eval()
+    xs = util.randn(g, 3, 2)
+    fpv = case["fast_pred_var"]
+
+    def scratch(Xf_, yf_, nz_):
+        """the same hyper-parameters trained on the concatenated data (prediction on the exact, non-fast path)"""
+        m2 = copy.deepcopy(model)
+        m2.prediction_strategy = None
+        Xa, ya = torch.cat([X, Xf_], -2), torch.cat([y, yf_], -1)
+        if fixed is not None:
+            m2.likelihood.noise_covar.noise = torch.cat([fixed, nz_], -1)
+        m2.set_train_data(Xa, ya, strict=False)
+        m2.eval()
+        with S.fast_pred_var(False):
+            return m2(xs)
+
+    with S.fast_pred_var(fpv), S.detach_test_caches(False):
+        model(xs)
+        Xf = util.randn(g, 2, 2).requires_grad_(True)
+        yf = util.randn(g, 2)
+        nz = util.rand(g, 2) * 0.2 + 0.03 if fixed is not None else None
+        kw = {"noise": nz} if nz is not None else {}
+        fm = model.get_fantasy_model(Xf, yf, **kw)
+        out = fm(xs)
+        gm, gv = torch.autograd.grad(out.mean.sum(), Xf, retain_graph=True)[0], torch.autograd.grad(out.variance.sum(), Xf, allow_unused=True)[0]
+        Xr = Xf.detach().clone().requires_grad_(True)
+        ref = scratch(Xr, yf, nz)
+        rm, rv = torch.autograd.grad(ref.mean.sum(), Xr, retain_graph=True)[0], torch.autograd.grad(ref.variance.sum(), Xr)[0]
+        tol = (1e-5, 1e-5) if fpv else (1e-7, 1e-7)
+        ctx.close("fantasy_gradient_wrt_inputs", gm, rm, tol, cls=f"grad:mean:{case['lik']}:{'love' if fpv else 'exact'}")
+        ctx.close("fantasy_gradient_wrt_inputs", torch.zeros_like(rv) if gv is None else gv, rv, tol, cls=f"grad:var:{case['lik']}:{'love' if fpv else 'exact'}")
+    # the same fantasy-input tensor object, refilled in place, other targets and noise: a second fantasy model of the source
+    with S.fast_pred_var(fpv), torch.no_grad():
+        Xb = util.randn(g, 2, 2)
+        y1 = util.randn(g, 2)
+        n1 = util.rand(g, 2) * 0.2 + 0.03 if fixed is not None else None
+        model.get_fantasy_model(Xb, y1, **({"noise": n1} if n1 is not None else {}))
+        Xb.copy_(util.randn(g, 2, 2))
+        y2 = util.randn(g, 2)
+        n2 = util.rand(g, 2) * 0.2 + 0.03 if fixed is not None else None
+        f2 = model.get_fantasy_model(Xb, y2, **({"noise": n2} if n2 is not None else {}))
+        o2 = f2(xs)
+        r2 = scratch(Xb, y2, n2)
+        ctx.close("fantasy_refilled_inputs", o2.mean, r2.mean, (1e-7, 1e-7), cls="refilled:mean")
+        ctx.close("fantasy_refilled_inputs", o2.covariance_matrix, r2.covariance_matrix, (1e-4, 1e-4) if fpv else (1e-7, 1e-7), cls="refilled:covar:" + ("love" if fpv else "exact"))
+    ctx.cell({k: v for k, v in case.items() if k != "seed"})
 
 
 def _mt(case, ctx, g):
